@@ -188,6 +188,10 @@ Fixpoint libm_lookup (t : libm_table) (fn : libm_fn) (args : list float) : float
       if libm_fn_eqb fn fn' && args_eqb args args' then r else libm_lookup t' fn args
   end.
 
+(* repr(float): placeholder until the shortest-round-trip algorithm is supplied
+   (C04); it is only reached by Angle.dms_str / ra_str *)
+Definition b64_repr (x : float) : String.string := String.EmptyString.
+
 Definition B64opsC (t : libm_table) (call : val float -> list (val float) -> val float)
   : FloatOps float := {|
   f_of_Z := b64_of_Z;
@@ -216,7 +220,8 @@ Definition B64opsC (t : libm_table) (call : val float -> list (val float) -> val
   f_rad2deg := 0x1.ca5dc1a63c1f8p+5%float;
   f_fsum := b64_fsum;
   f_dom := fun _ _ => true;
-  f_call := call
+  f_call := call;
+  f_repr := b64_repr
 |}.
 
 Definition B64ops (t : libm_table) : FloatOps float :=
